@@ -159,6 +159,23 @@ def valid_params(rng, name, shipped_bias=0.3):
     raise KeyError(name)
 
 
+def near_valid_params(rng, name):
+    """parameters at and just beyond the border of what the reset function accepts (sizes one off,
+    other parities, counts one more): most are rejected; whatever is accepted is a valid parameter set
+    and the property speaks about it"""
+    p = dict(valid_params(rng, name, shipped_bias=0.1))
+    for k in ('h', 'w'):
+        r = rng.random()
+        if r < 0.4:
+            p[k] = p[k] + rng.choice((-1, 1))
+        elif r < 0.5:
+            p[k] = rng.randint(3, 12)
+    for k in ('n', 'lh', 'lw', 'nb', 'ne'):
+        if k in p and rng.random() < 0.3:
+            p[k] = max(0, p[k] + rng.choice((-1, 1, 2)))
+    return p
+
+
 def reset_state(name, params, seed):
     from harness.oracles import reset_call
 
